@@ -1,12 +1,783 @@
-//! C18 — (stub: no ops yet)
+//! C18 — TMT reporter-ion quantification (`sage_core::tmt`, `spectrum::select_most_intense_peak`)
+//!
+//!   tmt <plex> ppmLo ppmHi level [n spectrum…]  ->  [n row…]            rows sorted as text
+//!       plex     = t6 | t10 | t11 | t16 | t18 | u [n f32…]
+//!       spectrum = level id(hex) file_id inj(f32) [n (0 | 1 ref(hex))…] [n (mass(f32) intensity(f32))…]
+//!       row      = key(hex) file_id inj(f32) [n f32…]
+//!   selpeak <p|c|d> lo hi center (0 | 1 offset) [n (mass intensity)…]  ->  0 | 1 mass intensity
+//!   tmtguard <plex> level  ->  (0 | 1 min_deisotope_mz) [n upper-edge(f32)…]
+//!   tmtconsts  ->  for t6,t10,t11,t16,t18: [n f32…]; PROTON; and, read from the text of
+//!                  sage-cli/src/runner.rs: ppmLo ppmHi (quantify call) c1 c2 (min_deisotope_mz factor) level form(last|max)
 use super::Info;
-use crate::proto::{Case, Rng, Tier, Toks};
+use crate::proto::{Case, Out, Rng, Tier, Toks};
+use sage_core::mass::{Tolerance, PROTON};
+use sage_core::spectrum::{select_most_intense_peak, Peak, Precursor, ProcessedSpectrum};
+use sage_core::tmt::{quantify, Isobaric};
 
-pub const OPS: &[&str] = &[];
-pub const INFO: Info = Info { rule: "", serial: false };
+pub const OPS: &[&str] = &["tmt", "selpeak", "tmtconsts", "tmtguard"];
+pub const INFO: Info = Info {
+    rule: "tmt: plex in {6,10,11,16,18,user-defined (0-6 masses, sorted or not, some 6 mDa apart, some with \
+           overlapping windows)} x quant level (mostly 2/3, also 0/1/4) x 0-6 spectra of mixed levels (ids, file ids, \
+           0-2 precursors with/without spectrum_ref) whose peaks are placed per channel: 0/1/2/3 peaks inside the \
+           +-20 ppm window, peaks exactly on / 1-3 ulp around the f32 window edge (inside the spec's guard band), \
+           peaks 10-60 ulp inside / outside the edge (outside the guard band), neighbouring-channel peaks 6 mDa \
+           away, intensity ties (small value set), duplicate masses, noise peaks elsewhere; peaks sorted by mass \
+           (ProcessedSpectrum invariant); directed: one peak per channel for every plex x level 2/3, peaks exactly \
+           on / one ulp outside both edges of all 18 channels, all 64 subsets of 6 positions around 127N/127C x 3 \
+           intensity orders, odd intensities (negative, -0, NaN, inf: spec na). non-trivial = some spectrum at the quant level has a channel with a peak \
+           in its window AND a peak outside every window. selpeak: sorted peak lists over few distinct masses / \
+           intensities (ties, zeros, negatives) x Ppm/Pct/Da windows whose edges coincide with peak masses, with \
+           and without offset; exhaustive small scope in the thorough tier. tmtconsts: one case (tables, plex \
+           slices, runner.rs constants). tmtguard: every built-in plex x level 0-4, plus user-defined plexes (1-8 \
+           masses): ascending, shuffled except for the last element, and fully shuffled (the heaviest mass anywhere).",
+    serial: false,
+};
 
-pub fn gen(_rng: &mut Rng, _tier: Tier, _emit: &mut dyn FnMut(Case)) {}
+// ------------------------------------------------------------------------------------------ data
 
-pub fn exec(_op: &str, _t: &mut Toks) -> Option<String> {
-    None
+#[derive(Clone)]
+enum Plex {
+    T6,
+    T10,
+    T11,
+    T16,
+    T18,
+    User(Vec<f32>),
+}
+
+impl Plex {
+    fn real(&self) -> Isobaric {
+        match self {
+            Plex::T6 => Isobaric::Tmt6,
+            Plex::T10 => Isobaric::Tmt10,
+            Plex::T11 => Isobaric::Tmt11,
+            Plex::T16 => Isobaric::Tmt16,
+            Plex::T18 => Isobaric::Tmt18,
+            Plex::User(v) => Isobaric::User(v.clone()),
+        }
+    }
+    fn write(&self, o: &mut Out) {
+        match self {
+            Plex::T6 => o.raw("t6"),
+            Plex::T10 => o.raw("t10"),
+            Plex::T11 => o.raw("t11"),
+            Plex::T16 => o.raw("t16"),
+            Plex::T18 => o.raw("t18"),
+            Plex::User(v) => {
+                o.raw("u").n(v.len());
+                for &x in v {
+                    o.f32(x);
+                }
+                o
+            }
+        };
+    }
+    fn read(t: &mut Toks) -> Option<Plex> {
+        Some(match t.tok()? {
+            "t6" => Plex::T6,
+            "t10" => Plex::T10,
+            "t11" => Plex::T11,
+            "t16" => Plex::T16,
+            "t18" => Plex::T18,
+            "u" => Plex::User(t.list(|t| t.f32())?),
+            _ => return None,
+        })
+    }
+}
+
+#[derive(Clone)]
+struct Spec {
+    level: u8,
+    id: String,
+    file_id: usize,
+    inj: f32,
+    precursors: Vec<Option<String>>,
+    peaks: Vec<(f32, f32)>, // (mass, intensity)
+}
+
+fn write_spec(o: &mut Out, s: &Spec) {
+    o.n(s.level).s(&s.id).n(s.file_id).f32(s.inj).n(s.precursors.len());
+    for p in &s.precursors {
+        match p {
+            None => o.n(0),
+            Some(r) => o.n(1).s(r),
+        };
+    }
+    o.n(s.peaks.len());
+    for &(m, i) in &s.peaks {
+        o.f32(m).f32(i);
+    }
+}
+
+fn read_spec(t: &mut Toks) -> Option<Spec> {
+    let level = t.usize()?;
+    if level > 255 {
+        return None;
+    }
+    let id = t.string()?;
+    let file_id = t.usize()?;
+    let inj = t.f32()?;
+    let precursors = t.list(|t| t.opt(|t| t.string()))?;
+    let peaks = t.list(|t| Some((t.f32()?, t.f32()?)))?;
+    Some(Spec { level: level as u8, id, file_id, inj, precursors, peaks })
+}
+
+fn tmt_request(plex: &Plex, ppm: (f32, f32), level: u8, specs: &[Spec]) -> String {
+    let mut o = Out::new();
+    o.raw("tmt");
+    plex.write(&mut o);
+    o.f32(ppm.0).f32(ppm.1).n(level).n(specs.len());
+    for s in specs {
+        write_spec(&mut o, s);
+    }
+    o.finish()
+}
+
+// ------------------------------------------------------------------------------------------ exec
+
+fn exec_tmt(t: &mut Toks) -> Option<String> {
+    let plex = Plex::read(t)?;
+    let lo = t.f32()?;
+    let hi = t.f32()?;
+    let level = t.usize()?;
+    if level > 255 {
+        return None;
+    }
+    let specs = t.list(read_spec)?;
+    if !t.done() {
+        return None;
+    }
+    let spectra: Vec<ProcessedSpectrum<Peak>> = specs
+        .iter()
+        .map(|s| ProcessedSpectrum {
+            level: s.level,
+            id: s.id.clone(),
+            file_id: s.file_id,
+            scan_start_time: 0.0,
+            ion_injection_time: s.inj,
+            precursors: s
+                .precursors
+                .iter()
+                .map(|r| Precursor { spectrum_ref: r.clone(), ..Default::default() })
+                .collect(),
+            peaks: s.peaks.iter().map(|&(mass, intensity)| Peak { mass, intensity }).collect(),
+            total_ion_current: 0.0,
+        })
+        .collect();
+    let rows = quantify(&spectra, &plex.real(), Tolerance::Ppm(lo, hi), level as u8);
+    let mut lines: Vec<String> = rows
+        .iter()
+        .map(|r| {
+            let mut o = Out::new();
+            o.s(&r.spec_id).n(r.file_id).f32(r.ion_injection_time).n(r.peaks.len());
+            for &x in &r.peaks {
+                o.f32(x);
+            }
+            o.finish()
+        })
+        .collect();
+    // the property does not fix the order of the rows
+    lines.sort();
+    let mut o = Out::new();
+    o.n(lines.len());
+    for l in &lines {
+        o.raw(l);
+    }
+    Some(o.finish())
+}
+
+fn exec_selpeak(t: &mut Toks) -> Option<String> {
+    let kind = t.tok()?.to_string();
+    let lo = t.f32()?;
+    let hi = t.f32()?;
+    let center = t.f32()?;
+    let offset = t.opt(|t| t.f32())?;
+    let peaks: Vec<Peak> = t.list(|t| Some(Peak { mass: t.f32()?, intensity: t.f32()? }))?;
+    if !t.done() {
+        return None;
+    }
+    let tol = match kind.as_str() {
+        "p" => Tolerance::Ppm(lo, hi),
+        "c" => Tolerance::Pct(lo, hi),
+        "d" => Tolerance::Da(lo, hi),
+        _ => return None,
+    };
+    let mut o = Out::new();
+    match select_most_intense_peak(&peaks, center, tol, offset) {
+        None => o.n(0),
+        Some(p) => o.n(1).f32(p.mass).f32(p.intensity),
+    };
+    Some(o.finish())
+}
+
+/// parse the f32 literal at the start of `s` (Rust syntax: optional sign, digits, `.`, exponent, `_`)
+fn lit(s: &str) -> Option<f32> {
+    let s = s.trim();
+    let end = s
+        .char_indices()
+        .find(|&(i, c)| !(c.is_ascii_digit() || c == '.' || c == '_' || c == 'e' || c == 'E' || ((c == '-' || c == '+') && (i == 0 || s[..i].ends_with(['e', 'E'])))))
+        .map(|(i, _)| i)
+        .unwrap_or(s.len());
+    s[..end].replace('_', "").parse::<f32>().ok()
+}
+
+/// (ppm of the quantify call, (c1, c2, level, form)) — form: false = `.last()`, true = `.iter().copied().reduce(f32::max)`
+type RunnerConsts = (Option<(f32, f32)>, Option<(f32, f32, usize, bool)>);
+
+/// the two places of sage-cli (not linkable from here) that the property talks about, read from the
+/// source text (whitespace-insensitive): the tolerance handed to `tmt::quantify` and the
+/// `min_deisotope_mz` expression `match level { <L> => masses.last().map(|x| x * (<c1> + <c2>)), _ => None }`
+fn runner_consts() -> Option<&'static RunnerConsts> {
+    static CACHE: std::sync::OnceLock<Option<RunnerConsts>> = std::sync::OnceLock::new();
+    CACHE
+        .get_or_init(|| {
+            let repo = std::env::var("VERIF_REPO").unwrap_or_else(|_| "/repo".to_string());
+            let src = std::fs::read_to_string(format!("{repo}/crates/sage-cli/src/runner.rs")).ok()?;
+            // drop `//` comments, then all whitespace
+            let flat: String = src
+                .lines()
+                .map(|l| l.find("//").map(|i| &l[..i]).unwrap_or(l))
+                .collect::<String>()
+                .chars()
+                .filter(|c| !c.is_whitespace())
+                .collect();
+            // quantify(&msn_spectra, isobaric, Tolerance::Ppm(-20.0, 20.0), level)
+            let ppm = (|| {
+                let i = flat.find("tmt::quantify(")?;
+                let rest = &flat[i..];
+                let j = rest.find("Tolerance::Ppm(")? + "Tolerance::Ppm(".len();
+                let rest = &rest[j..];
+                let k = rest.find(')')?;
+                let mut it = rest[..k].split(',');
+                Some((lit(it.next()?)?, lit(it.next()?)?))
+            })();
+            let guard = (|| {
+                // the expression before fix e4ac756 (`.last()`) or after it (`reduce(f32::max)`); anything else
+                // is reported as "not found" (reply `0`), which the driver flags as bad:constants
+                let key_last = ".reporter_masses().last().map(|x|x*(";
+                let key_max = ".reporter_masses().iter().copied().reduce(f32::max).map(|x|x*(";
+                let (i, key, is_max) = match (flat.find(key_max), flat.find(key_last)) {
+                    (Some(i), None) => (i, key_max, true),
+                    (None, Some(i)) => (i, key_last, false),
+                    _ => return None,
+                };
+                let rest = &flat[i + key.len()..];
+                let k = rest.find(')')?;
+                let mut it = rest[..k].split('+');
+                let c1 = lit(it.next()?)?;
+                let c2 = lit(it.next()?)?;
+                if it.next().is_some() {
+                    return None;
+                }
+                // the match arm in front of it: `<level>=>i.reporter_masses()`
+                let head = &flat[..i];
+                let arrow = head.rfind("=>")?;
+                let digits: String =
+                    head[..arrow].chars().rev().take_while(|c| c.is_ascii_digit()).collect::<String>().chars().rev().collect();
+                let level: usize = digits.parse().ok()?;
+                Some((c1, c2, level, is_max))
+            })();
+            Some((ppm, guard))
+        })
+        .as_ref()
+}
+
+fn exec_consts(t: &mut Toks) -> Option<String> {
+    if !t.done() {
+        return None;
+    }
+    let mut o = Out::new();
+    for p in [Isobaric::Tmt6, Isobaric::Tmt10, Isobaric::Tmt11, Isobaric::Tmt16, Isobaric::Tmt18] {
+        let m = p.reporter_masses();
+        o.n(m.len());
+        for &x in m {
+            o.f32(x);
+        }
+    }
+    o.f32(PROTON);
+    let (ppm, guard) = runner_consts()?;
+    match ppm {
+        Some((lo, hi)) => o.n(1).f32(*lo).f32(*hi),
+        None => o.n(0),
+    };
+    match guard {
+        Some((c1, c2, level, is_max)) => o.n(1).f32(*c1).f32(*c2).n(*level).raw(if *is_max { "max" } else { "last" }),
+        None => o.n(0),
+    };
+    Some(o.finish())
+}
+
+/// `tmtguard <plex> level`: the `min_deisotope_mz` expression of runner.rs re-evaluated on the REAL
+/// `reporter_masses()` with the constants and the level read from the source, and the upper window edges
+/// `Tolerance::Ppm(lo, hi).bounds(label).1` (m/z space) of every channel
+fn exec_guard(t: &mut Toks) -> Option<String> {
+    let plex = Plex::read(t)?;
+    let level = t.usize()?;
+    if !t.done() {
+        return None;
+    }
+    let (ppm, guard) = runner_consts()?;
+    let (lo, hi) = (*ppm)?;
+    let (c1, c2, glevel, is_max) = (*guard)?;
+    let iso = plex.real();
+    let masses = iso.reporter_masses();
+    let heaviest = if is_max { masses.iter().copied().reduce(f32::max) } else { masses.last().copied() };
+    let min_deisotope_mz = if level == glevel { heaviest.map(|x| x * (c1 + c2)) } else { None };
+    let mut o = Out::new();
+    match min_deisotope_mz {
+        None => o.n(0),
+        Some(m) => o.n(1).f32(m),
+    };
+    o.n(masses.len());
+    for &l in masses {
+        o.f32(Tolerance::Ppm(lo, hi).bounds(l).1);
+    }
+    Some(o.finish())
+}
+
+pub fn exec(op: &str, t: &mut Toks) -> Option<String> {
+    match op {
+        "tmt" => exec_tmt(t),
+        "selpeak" => exec_selpeak(t),
+        "tmtconsts" => exec_consts(t),
+        "tmtguard" => exec_guard(t),
+        _ => None,
+    }
+}
+
+// ------------------------------------------------------------------------------------------ gen
+
+fn next_up(x: f32, k: i32) -> f32 {
+    // k ulps up (k<0: down) for positive finite x
+    f32::from_bits((x.to_bits() as i64 + k as i64) as u32)
+}
+
+const INTENSITIES: [f32; 8] = [0.0, 1.0, 1.0, 5.5, 100.0, 100.0, 12345.678, 3.0e7];
+
+fn rand_intensity(rng: &mut Rng) -> f32 {
+    if rng.chance(2, 3) {
+        *rng.pick(&INTENSITIES)
+    } else {
+        (rng.unit() * 1.0e5) as f32
+    }
+}
+
+fn rand_id(rng: &mut Rng) -> String {
+    match rng.below(4) {
+        0 => format!("scan={}", rng.below(50)),
+        1 => format!("controllerType=0 controllerNumber=1 scan={}", rng.below(5000)),
+        2 => String::new(),
+        _ => format!("s{}", rng.below(5)),
+    }
+}
+
+fn builtin(p: &Plex) -> Vec<f32> {
+    p.real().reporter_masses().to_vec()
+}
+
+fn rand_plex(rng: &mut Rng) -> Plex {
+    match rng.below(9) {
+        0 => Plex::T6,
+        1 => Plex::T10,
+        2 => Plex::T11,
+        3 => Plex::T16,
+        4 | 5 => Plex::T18,
+        _ => {
+            let n = rng.below(7);
+            let mut v: Vec<f32> = Vec::new();
+            while v.len() < n {
+                let base = match rng.below(4) {
+                    0 => 100.0 + rng.unit() * 100.0,
+                    1 => 50.0 + rng.unit() * 1500.0,
+                    2 => 126.0 + rng.below(10) as f64 * 1.003,
+                    _ => 113.0 + rng.unit() * 8.0,
+                } as f32;
+                v.push(base);
+                if v.len() < n && rng.chance(1, 3) {
+                    // neighbour 6 mDa above, or so close that the windows overlap
+                    let d = if rng.chance(1, 2) { 0.00632 } else { base * 15.0e-6 };
+                    v.push(base + d);
+                }
+            }
+            match rng.below(3) {
+                0 => v.sort_by(|a, b| a.total_cmp(b)),
+                1 => rng.shuffle(&mut v),
+                _ => {}
+            }
+            Plex::User(v)
+        }
+    }
+}
+
+/// the window edges in mass space exactly as sage computes them (used only to AIM peaks at the edges)
+fn edges(label: f32, ppm: (f32, f32)) -> (f32, f32) {
+    let (lo, hi) = Tolerance::Ppm(ppm.0, ppm.1).bounds(label);
+    (lo + -PROTON, hi + -PROTON)
+}
+
+struct Built {
+    spec: Spec,
+    in_window: bool,
+    outside: bool,
+    edge: bool,
+    near: bool,
+    ties: bool,
+    multi: bool,
+}
+
+fn build_spectrum(rng: &mut Rng, labels: &[f32], ppm: (f32, f32), level: u8, big: bool) -> Built {
+    let mut peaks: Vec<(f32, f32)> = Vec::new();
+    let (mut edge, mut near, mut ties, mut multi) = (false, false, false, false);
+    // also aim at channels of the 18-plex that the chosen plex does NOT contain (must be ignored)
+    let mut aims: Vec<f32> = labels.to_vec();
+    if rng.chance(1, 2) {
+        aims.extend(builtin(&Plex::T18));
+    }
+    for &label in &aims {
+        if !(label.is_finite() && label > 2.0) {
+            continue;
+        }
+        let (lo, hi) = edges(label, ppm);
+        if !(lo < hi) {
+            continue;
+        }
+        match rng.below(10) {
+            0 | 1 => {} // empty window
+            2 | 3 => {
+                // one peak somewhere inside
+                let f = rng.unit() as f32;
+                peaks.push((lo + (hi - lo) * f, rand_intensity(rng)));
+            }
+            4 | 5 => {
+                // several peaks inside, often tied
+                let k = 2 + rng.below(3);
+                let tie = rng.chance(1, 2);
+                let it = rand_intensity(rng);
+                for _ in 0..k {
+                    let f = rng.unit() as f32;
+                    peaks.push((lo + (hi - lo) * f, if tie { it } else { rand_intensity(rng) }));
+                }
+                multi = true;
+                ties |= tie;
+            }
+            6 => {
+                // exactly on / a few ulp around an edge (inside the spec's guard band)
+                let e = if rng.chance(1, 2) { lo } else { hi };
+                let k = rng.range(-3, 3) as i32;
+                peaks.push((next_up(e, k), rand_intensity(rng)));
+                if rng.chance(1, 2) {
+                    peaks.push((next_up(e, -k), rand_intensity(rng)));
+                }
+                edge = true;
+            }
+            7 | 8 => {
+                // near an edge but outside the guard band: 10-60 ulp inside or outside
+                let k = rng.range(10, 60) as i32;
+                let (e, sgn) = if rng.chance(1, 2) { (lo, 1) } else { (hi, -1) };
+                let inside = rng.chance(1, 2);
+                peaks.push((next_up(e, if inside { sgn * k } else { -sgn * k }), rand_intensity(rng)));
+                if rng.chance(1, 2) {
+                    // and a competitor on the other side of the same edge
+                    peaks.push((next_up(e, if inside { -sgn * k } else { sgn * k }), rand_intensity(rng)));
+                }
+                near = true;
+            }
+            _ => {
+                // a peak 6 mDa above / below (where a neighbouring channel would sit)
+                let d = if rng.chance(1, 2) { 0.00632f32 } else { -0.00632f32 };
+                peaks.push((label + d - PROTON, rand_intensity(rng)));
+                peaks.push((label - PROTON, rand_intensity(rng)));
+            }
+        }
+    }
+    // noise
+    let noise = if big { rng.below(200) } else { rng.below(6) };
+    for _ in 0..noise {
+        let mz = match rng.below(3) {
+            0 => 100.0 + rng.unit() * 40.0,
+            1 => 125.0 + rng.unit() * 11.0,
+            _ => 140.0 + rng.unit() * 1500.0,
+        } as f32;
+        peaks.push((mz - PROTON, rand_intensity(rng)));
+    }
+    // duplicate masses
+    if !peaks.is_empty() && rng.chance(1, 4) {
+        let (m, _) = *rng.pick(&peaks);
+        peaks.push((m, rand_intensity(rng)));
+        ties = true;
+    }
+    if rng.chance(1, 3) {
+        rng.shuffle(&mut peaks);
+    }
+    peaks.sort_by(|a, b| a.0.total_cmp(&b.0)); // stable: equal masses keep their relative order
+    let in_any = |m: f32| {
+        labels.iter().any(|&l| {
+            let (lo, hi) = edges(l, ppm);
+            m >= lo && m <= hi
+        })
+    };
+    let in_window = peaks.iter().any(|p| in_any(p.0));
+    let outside = peaks.iter().any(|p| !in_any(p.0));
+    let nprec = rng.below(3);
+    let precursors = (0..nprec)
+        .map(|_| if rng.chance(3, 4) { Some(rand_id(rng)) } else { None })
+        .collect();
+    let lvl = if rng.chance(3, 5) { level } else { *rng.pick(&[1u8, 2, 3, 3, 2, 0, 4]) };
+    Built {
+        spec: Spec {
+            level: lvl,
+            id: rand_id(rng),
+            file_id: rng.below(4),
+            inj: (rng.unit() * 200.0) as f32,
+            precursors,
+            peaks,
+        },
+        in_window,
+        outside,
+        edge,
+        near,
+        ties,
+        multi,
+    }
+}
+
+/// user-defined plexes whose last mass is not the largest violated `reporter_region_protected` before fix
+/// e4ac756 (corpus/C18/fixed-user-unsorted.req); they are generated now
+const GEN_UNSORTED_USER_GUARD: bool = true;
+
+fn guard_request(plex: &Plex, level: usize) -> String {
+    let mut o = Out::new();
+    o.raw("tmtguard");
+    plex.write(&mut o);
+    o.n(level);
+    o.finish()
+}
+
+fn sel_request(kind: &str, lo: f32, hi: f32, center: f32, offset: Option<f32>, peaks: &[(f32, f32)]) -> String {
+    let mut o = Out::new();
+    o.raw("selpeak").raw(kind).f32(lo).f32(hi).f32(center);
+    match offset {
+        None => o.n(0),
+        Some(x) => o.n(1).f32(x),
+    };
+    o.n(peaks.len());
+    for &(m, i) in peaks {
+        o.f32(m).f32(i);
+    }
+    o.finish()
+}
+
+pub fn gen(rng: &mut Rng, tier: Tier, emit: &mut dyn FnMut(Case)) {
+    let quick = tier == Tier::Quick;
+    emit(Case::new("tmtconsts".to_string()).tag("consts"));
+
+    // ---------------------------------------------------------------- tmtguard
+    for plex in [Plex::T6, Plex::T10, Plex::T11, Plex::T16, Plex::T18] {
+        for level in 0..=4usize {
+            emit(Case::new(guard_request(&plex, level)).tag("guard:builtin").nontrivial(level == 2));
+        }
+    }
+    for _ in 0..(if quick { 200 } else { 5000 }) {
+        let n = 1 + rng.below(8);
+        let mut v: Vec<f32> = (0..n)
+            .map(|_| match rng.below(3) {
+                0 => 100.0 + rng.unit() * 100.0,
+                1 => 1.0 + rng.unit() * 3000.0,
+                _ => 126.0 + rng.below(10) as f64 * 1.003 + rng.below(2) as f64 * 0.00632,
+            } as f32)
+            .collect();
+        v.sort_by(|a, b| a.total_cmp(b));
+        let sorted = rng.chance(1, 2);
+        if !sorted {
+            let k = v.len() - 1;
+            rng.shuffle(&mut v[..k]);
+        }
+        let mut last_is_max = true;
+        if GEN_UNSORTED_USER_GUARD && rng.chance(1, 3) {
+            rng.shuffle(&mut v);
+            let mx = v.iter().copied().fold(f32::MIN, f32::max);
+            last_is_max = *v.last().unwrap() == mx;
+        }
+        let level = if rng.chance(3, 4) { 2 } else { rng.below(5) };
+        emit(Case::new(guard_request(&Plex::User(v), level))
+            .tag("guard:user")
+            .tag_if(!sorted && last_is_max, "guard:user-unsorted-last-is-max")
+            .tag_if(!last_is_max, "guard:user-heaviest-not-last")
+            .nontrivial(level == 2 && n >= 2));
+    }
+
+    // ---------------------------------------------------------------- tmt: random structured cases
+    let n = if quick { 1500 } else { 60000 };
+    for k in 0..n {
+        let plex = rand_plex(rng);
+        let labels = builtin(&plex);
+        let ppm = match rng.below(10) {
+            0 => (-10.0, 10.0),
+            1 => (-20.0, 10.0),
+            2 => (-5.0, 30.0),
+            _ => (-20.0, 20.0),
+        };
+        let level: u8 = match rng.below(12) {
+            0 => 1,
+            1 => 0,
+            2 => 4,
+            3..=7 => 2,
+            _ => 3,
+        };
+        let nspec = rng.below(7);
+        let big = !quick && k % 50 == 0;
+        let built: Vec<Built> = (0..nspec).map(|_| build_spectrum(rng, &labels, ppm, level, big)).collect();
+        let specs: Vec<Spec> = built.iter().map(|b| b.spec.clone()).collect();
+        let at_level: Vec<&Built> = built.iter().filter(|b| b.spec.level == level).collect();
+        let nontrivial = level != 1 && at_level.iter().any(|b| b.in_window && b.outside);
+        let user = matches!(plex, Plex::User(_));
+        emit(Case::new(tmt_request(&plex, ppm, level, &specs))
+            .tag(if user { "plex:user" } else { "plex:builtin" })
+            .tag(match level {
+                1 => "level:1",
+                2 => "level:2",
+                3 => "level:3",
+                _ => "level:other",
+            })
+            .tag_if(ppm != (-20.0, 20.0), "ppm:other")
+            .tag_if(nspec == 0, "no-spectra")
+            .tag_if(built.iter().any(|b| b.spec.level != level), "other-level-spectra")
+            .tag_if(at_level.iter().any(|b| b.edge), "peak-in-guard-band")
+            .tag_if(at_level.iter().any(|b| b.near), "peak-near-edge")
+            .tag_if(at_level.iter().any(|b| b.ties), "intensity-ties")
+            .tag_if(at_level.iter().any(|b| b.multi), "several-peaks-in-window")
+            .tag_if(level >= 3 && at_level.iter().any(|b| b.spec.precursors.is_empty()), "ms3-no-precursor")
+            .tag_if(
+                level >= 3 && at_level.iter().any(|b| matches!(b.spec.precursors.first(), Some(None))),
+                "ms3-no-spectrum-ref",
+            )
+            .nontrivial(nontrivial));
+    }
+
+    // ---------------------------------------------------------------- tmt: directed
+    // every builtin plex x level 2/3: one spectrum with exactly one peak at every channel's exact m/z,
+    // intensities = channel number, plus the 18-plex channels the plex lacks
+    for plex in [Plex::T6, Plex::T10, Plex::T11, Plex::T16, Plex::T18] {
+        for level in [2u8, 3] {
+            let all = builtin(&Plex::T18);
+            let mut peaks: Vec<(f32, f32)> = all.iter().enumerate().map(|(i, &l)| (l - PROTON, (i + 1) as f32)).collect();
+            peaks.sort_by(|a, b| a.0.total_cmp(&b.0));
+            let s = Spec {
+                level,
+                id: "scan=7".into(),
+                file_id: 1,
+                inj: 12.5,
+                precursors: vec![Some("scan=3".into()), Some("scan=4".into())],
+                peaks,
+            };
+            emit(Case::new(tmt_request(&plex, (-20.0, 20.0), level, &[s])).tag("directed:one-peak-per-channel"));
+        }
+    }
+    // every channel of the 18-plex: peaks exactly on both f32 window edges and one ulp outside them
+    // (inside the spec's guard band: the model must agree bit for bit; tests the inclusive comparisons)
+    for (ci, &label) in builtin(&Plex::T18).iter().enumerate() {
+        let (lo, hi) = edges(label, (-20.0, 20.0));
+        for variant in 0..4 {
+            let peaks: Vec<(f32, f32)> = match variant {
+                0 => vec![(next_up(lo, -1), 9.0), (lo, 5.0), (hi, 4.0), (next_up(hi, 1), 8.0)],
+                1 => vec![(next_up(lo, -1), 9.0), (hi, 4.0)],
+                2 => vec![(lo, 5.0), (next_up(hi, 1), 8.0)],
+                _ => vec![(next_up(lo, -1), 9.0), (next_up(hi, 1), 8.0)],
+            };
+            let s = Spec { level: 2, id: format!("c{ci}"), file_id: 0, inj: 1.0, precursors: vec![], peaks };
+            emit(Case::new(tmt_request(&Plex::T18, (-20.0, 20.0), 2, &[s])).tag("directed:on-edge").tag("peak-in-guard-band"));
+        }
+    }
+    // one channel (127N of the 11-plex, neighbour 127C 6 mDa above), all subsets of 6 positions outside the
+    // guard band: 20 ulp outside/inside each edge, the centre, and the neighbour's centre; 3 intensity orders
+    {
+        let l = builtin(&Plex::T11);
+        let (lo, hi) = edges(l[1], (-20.0, 20.0));
+        let pos = [next_up(lo, -20), next_up(lo, 20), l[1] - PROTON, next_up(hi, -20), next_up(hi, 20), l[2] - PROTON];
+        for mask in 0u32..64 {
+            for order in 0..3 {
+                let peaks: Vec<(f32, f32)> = (0..6)
+                    .filter(|i| (mask >> i) & 1 == 1)
+                    .map(|i| {
+                        let it = match order {
+                            0 => (i + 1) as f32,
+                            1 => (6 - i) as f32,
+                            _ => 3.0,
+                        };
+                        (pos[i], it)
+                    })
+                    .collect();
+                let s = Spec { level: 2, id: "x".into(), file_id: 2, inj: 3.0, precursors: vec![], peaks };
+                emit(Case::new(tmt_request(&Plex::T11, (-20.0, 20.0), 2, &[s]))
+                    .tag("directed:edge-subsets")
+                    .tag("peak-near-edge")
+                    .nontrivial(mask & 0b001110 != 0 && mask & 0b110001 != 0));
+            }
+        }
+    }
+    // negative / NaN intensities (outside the property's domain: the spec answers `na`, the model must agree)
+    for &bad in &[-1.0f32, -0.0, f32::NAN, f32::INFINITY] {
+        let l = builtin(&Plex::T6);
+        let peaks = vec![(l[0] - PROTON, bad), (l[1] - PROTON, 7.0), (next_up(l[1] - PROTON, 5), bad)];
+        let s = Spec { level: 2, id: "a".into(), file_id: 0, inj: 1.0, precursors: vec![], peaks };
+        emit(Case::new(tmt_request(&Plex::T6, (-20.0, 20.0), 2, &[s])).tag("directed:odd-intensity").nontrivial(false));
+    }
+
+    // ---------------------------------------------------------------- selpeak
+    let masses: [f32; 6] = [99.0, 100.0, 100.0, 101.0, 102.0, 104.0];
+    let ints: [f32; 5] = [0.0, 1.0, 2.0, 2.0, -1.0];
+    let nsel = if quick { 1500 } else { 40000 };
+    for _ in 0..nsel {
+        let n = rng.below(9);
+        let mut peaks: Vec<(f32, f32)> = (0..n).map(|_| (*rng.pick(&masses), *rng.pick(&ints))).collect();
+        peaks.sort_by(|a, b| a.0.total_cmp(&b.0));
+        let (kind, lo, hi) = match rng.below(3) {
+            0 => ("d", -(rng.below(3) as f32), rng.below(3) as f32),
+            1 => ("c", -(rng.below(3) as f32), rng.below(3) as f32),
+            _ => ("p", -10000.0 * rng.below(3) as f32, 10000.0 * rng.below(3) as f32),
+        };
+        let center = 98.0 + rng.below(8) as f32;
+        let offset = match rng.below(3) {
+            0 => None,
+            1 => Some(-1.0),
+            _ => Some(1.0),
+        };
+        let w = {
+            let (a, b) = match kind {
+                "d" => Tolerance::Da(lo, hi),
+                "c" => Tolerance::Pct(lo, hi),
+                _ => Tolerance::Ppm(lo, hi),
+            }
+            .bounds(center);
+            (a + offset.unwrap_or(0.0), b + offset.unwrap_or(0.0))
+        };
+        let inside = peaks.iter().filter(|p| p.0 >= w.0 && p.0 <= w.1).count();
+        emit(Case::new(sel_request(kind, lo, hi, center, offset, &peaks))
+            .tag("selpeak:random")
+            .tag_if(inside == 0, "selpeak:empty-window")
+            .tag_if(inside >= 2, "selpeak:several-in-window")
+            .nontrivial(inside >= 1 && inside < peaks.len()));
+    }
+    // exhaustive small scope: all sorted mass lists of length <= L over 4 keys x intensities {0,1,2} x Da windows
+    let len_max = if quick { 3 } else { 5 };
+    let keys: [f32; 4] = [10.0, 11.0, 12.0, 13.0];
+    let ivals: [f32; 3] = [0.0, 1.0, 2.0];
+    for len in 0..=len_max {
+        let total = 12usize.pow(len as u32);
+        for code in 0..total {
+            let mut c = code;
+            let mut peaks = Vec::new();
+            for _ in 0..len {
+                let d = c % 12;
+                c /= 12;
+                peaks.push((keys[d / 3], ivals[d % 3]));
+            }
+            if !peaks.windows(2).all(|w| w[0].0 <= w[1].0) {
+                continue;
+            }
+            for &(center, lo, hi) in &[(11.0f32, 0.0f32, 0.0f32), (11.0, 0.0, 1.0), (12.0, -2.0, 0.0), (11.5, -0.25, 0.25), (9.0, -5.0, 5.0)] {
+                emit(Case::new(sel_request("d", lo, hi, center, None, &peaks)).tag("selpeak:exhaustive").nontrivial(len >= 2));
+            }
+        }
+    }
 }
